@@ -626,7 +626,10 @@ func c18Full(k *fw.K) {
 		{initializers.NewFull(&initializers.FullConfig{Value: 0.25}), 0.25}, {initializers.NewFull(&initializers.FullConfig{Value: 0.25000000000000006}), 0.25000000000000006},
 		{initializers.NewFull(&initializers.FullConfig{Value: -1e-300}), -1e-300}, {initializers.NewFull(&initializers.FullConfig{Value: 1e10 + 1e-5}), 1e10 + 1e-5},
 		{initializers.NewFull(&initializers.FullConfig{Value: math.Copysign(0, -1)}), math.Copysign(0, -1)}, {initializers.NewFull(&initializers.FullConfig{Value: 5e-324}), 5e-324},
-		{initializers.NewFull(&initializers.FullConfig{Value: 123456789.125}), 123456789.125}, {initializers.NewFull(&initializers.FullConfig{Value: 123456789.25}), 123456789.25}} {
+		{initializers.NewFull(&initializers.FullConfig{Value: 123456789.125}), 123456789.125}, {initializers.NewFull(&initializers.FullConfig{Value: 123456789.25}), 123456789.25},
+		// the constant is not validated: infinities and NaN (masks for attention scores, sentinels) are held like any other value
+		{initializers.NewFull(&initializers.FullConfig{Value: math.Inf(1)}), math.Inf(1)}, {initializers.NewFull(&initializers.FullConfig{Value: math.Inf(-1)}), math.Inf(-1)},
+		{initializers.NewFull(&initializers.FullConfig{Value: math.NaN()}), math.NaN()}, {initializers.NewFull(&initializers.FullConfig{Value: math.MaxFloat64}), math.MaxFloat64}} {
 		for _, s := range c18Shapes {
 			t, err := f.in.Init(ref.CopyInts(s))
 			if err != nil {
